@@ -90,6 +90,15 @@ func (k Keeper) Call(ctx sdk.Context, msg *types.MsgCall, view bool) ([]byte, er
 // Call executes the CVM call from caller to callee with the given data and gas limit.
 func (k Keeper) Tx(ctx sdk.Context, caller, callee sdk.AccAddress, value uint64, data []byte, payloadMeta []*payload.ContractMeta,
 	view, isEWASM, isRuntime bool) ([]byte, error) {
+	// The VM moves value by writing balances directly, which bypasses the bank module's locked-coins check:
+	// only coins the caller could spend with a bank send may be sent along with a call or deployment.
+	if value > 0 && !view {
+		spendable := k.bk.SpendableCoins(ctx, caller).AmountOf(k.sk.BondDenom(ctx))
+		if spendable.LT(sdk.NewIntFromUint64(value)) {
+			return nil, sdkerrors.Wrapf(sdkerrors.ErrInsufficientFunds, "%d is more than the spendable balance %s", value, spendable)
+		}
+	}
+
 	state := k.NewState(ctx)
 
 	callframe := engine.NewCallFrame(state, acmstate.Named("TxCache"))
